@@ -14,13 +14,15 @@ def estimators_native(vc):
     seed = vc.int("seed", lo=0, hi=10 ** 6)
     rng = np.random.default_rng(seed)
     est = vc.choice("estimator", ["kde", "unimodal"])
-    fam = vc.choice("family", ["normal", "skew", "logistic", "left_skew", "laplace"])
+    fam = vc.choice("family", ["normal", "skew", "logistic", "left_skew", "laplace", "exponential"])
+    if fam == "exponential" and est == "unimodal":
+        fam = "skew"          # (a density with a jump at its mode is outside the unimodal model's family)
     n = vc.choice("n", [300, 3000, 6000])          # (UnimodalPdf fits a sub-sample first when n >= 4000)
     scale = 10 ** vc.choice("log10_scale", [-6, 0, 3, 6])
     loc = vc.choice("location_in_sigmas", [0.0, 30.0, 1e4, 1e6]) * scale
     base = {"normal": lambda: rng.normal(size=n), "skew": lambda: rng.gamma(4.0, size=n) / 2.0,
             "logistic": lambda: rng.logistic(size=n) * 0.55, "left_skew": lambda: 6.0 - rng.gamma(3.0, size=n) / 1.7,
-            "laplace": lambda: rng.laplace(size=n) * 0.7}[fam]()
+            "laplace": lambda: rng.laplace(size=n) * 0.7, "exponential": lambda: rng.exponential(size=n)}[fam]()
     s = base * scale + loc
     with np.errstate(all="ignore"):
         E = GaussianKDE(s) if est == "kde" else UnimodalPdf(s)
@@ -51,14 +53,9 @@ def estimators_native(vc):
     c1 = np.array([float(E.cdf(float(v))) for v in xs[:3]])
     vc.ensures("cdf_independent_of_the_order_of_the_points", bool(np.allclose(cp, c[perm], rtol=0, atol=1e-6))
                and bool(np.allclose(c1, c[:3], rtol=0, atol=1e-6)))
-    # (the KDE's bounded search may stop on a secondary bump of a wiggly estimate -- recorded finding -- but what it
-    # returns must at least be a maximum of the density in its own neighbourhood)
+    # the mode is a maximum of the density in its own neighbourhood ... and the global one
     wloc = 0.25 * E.h if est == "kde" else 0.05 * E.MAP[1]
     near = np.linspace(E.mode - wloc, E.mode + wloc, 41)
-    if est == "kde":                 # the KDE searches the 20% highest-density interval of the sample only
-        from inference.pdf.hdi import sample_hdi
-        b_lo, b_hi = sample_hdi(np.sort(s), 0.2)
-        near = np.clip(near, b_lo, b_hi)
     slack = 0.0
     if est == "kde":                 # kernels 3.5-4.5 bandwidths away are switched on/off at region edges (C12's truncation)
         dist = np.abs(s - E.mode) / E.h
@@ -104,3 +101,16 @@ def estimators_native(vc):
     if inside:
         vc.ensures(f"{est}.moments_transform_covariantly", abs(mu - (mb * scale + loc)) < tol * sd and abs(var - vb * scale ** 2) < 2 * tol * sd ** 2
                    and abs(skw - sb) < 0.1 and abs(kur - kb) < 0.3)
+
+
+# The kernel estimator's self-consistency (its cdf is the integral of its density, both normalised) rests on both being the exact
+# kernel sums up to the stated truncation: the C12 contracts (proof layer and bounded layer, which also covers user-chosen
+# bandwidths and clustered samples whose range is thousands of bandwidths) are checked under this property as well.
+from contracts.c12_kde import (kde_native as _kn, construction as _kc, region_lookup as _kr, density_evaluation as _kd,
+                               cdf_evaluation as _kcdf, truncation_theorem as _kt)
+bounded("C19", "kde_exact_sums_native", native_runs=24)(_kn)
+contract("C19", "kde_construction", native=False, replay_with="kde_exact_sums_native")(_kc)
+contract("C19", "kde_region_lookup", native=False, replay_with="kde_exact_sums_native")(_kr)
+contract("C19", "kde_density_evaluation", native=False, replay_with="kde_exact_sums_native")(_kd)
+contract("C19", "kde_cdf_evaluation", native=False, replay_with="kde_exact_sums_native")(_kcdf)
+contract("C19", "kde_truncation_theorem", native=False, replay_with="kde_exact_sums_native")(_kt)
